@@ -1220,6 +1220,104 @@ theorem error_is_servfail (e : Err) (hasOPT : Bool) :
 theorem decisions_fail_to_servfail (o : Outcome) (e : Err) (hasOPT : Bool) (_h : o = .fail e) :
     (errorReply e hasOPT).rcode = 2 := rfl
 
+/-! ## round 9: CD partitions, cuts, failing alias hops -/
+
+/-- **the validator's own fetches stay in their CD partition.** Whatever `Store.GetWithContext` hands
+`Resolver.subQuery` was filed under the CD bit of the request itself; in particular a validating (CD=0)
+DS / DNSKEY fetch is never served an entry a checking-disabled query left behind unvalidated — it is a
+miss and goes to the network, where the reply is validated. -/
+theorem private_lookup_keeps_partition {s0 s1 ask p : Bool} (h : privateLookup s0 s1 ask = some p) :
+    p = ask ∧ (if ask then s1 else s0) = true := by
+  unfold privateLookup at h
+  cases ask <;> cases s0 <;> cases s1 <;> simp at h ⊢ <;> first | exact h | exact h.symm
+
+theorem validating_fetch_misses_cd_entries (s1 : Bool) : privateLookup false s1 false = none := by
+  cases s1 <;> rfl
+
+-- non-vacuity: both partitions are served to their own readers
+example : privateLookup true true false = some false ∧ privateLookup true true true = some true := by decide
+example : privateLookup false true false = none := by decide
+
+/-- one step keeps "the validating partition holds no unvalidated key set" and never answers a
+validating client with one. -/
+theorem keyCache_step_inv (c : KeyCache) (e : KeyEv) (h : c.e0 ≠ some .padded) :
+    (c.step e).1.e0 ≠ some .padded ∧ (∀ a, e = .ask false a → (c.step e).2 ≠ some .padded) := by
+  rcases c with ⟨e0, e1⟩
+  cases e with
+  | expire => simp [KeyCache.step]
+  | ask cd a =>
+    cases cd <;> cases a <;> cases e0 <;> cases e1 <;> simp_all [KeyCache.step, upstreamKeys]
+
+/-- **whatever clients asked before, with whatever CD bits, while upstream was tampered or not, and
+whatever ran out in between: the key set the validator's own (CD=0) fetch is served from the cache is
+never one that was relayed unvalidated**, and no validating client is answered with one. By induction
+over the history. -/
+theorem validator_never_served_unvalidated_keys (evs : List KeyEv) :
+    ((KeyCache.run { e0 := none, e1 := none } evs).fetch false ≠ some .padded) ∧
+    (∀ (i : Nat) (a : Bool), evs[i]? = some (KeyEv.ask false a) →
+      (KeyCache.replies { e0 := none, e1 := none } evs)[i]? ≠ some (some KV.padded)) := by
+  have inv : ∀ (evs : List KeyEv) (c : KeyCache), c.e0 ≠ some .padded →
+      (c.run evs).e0 ≠ some .padded ∧
+      (∀ (i : Nat) (a : Bool), evs[i]? = some (KeyEv.ask false a) → (c.replies evs)[i]? ≠ some (some KV.padded)) := by
+    intro evs
+    induction evs with
+    | nil => intro c h; exact ⟨h, by intro i a hi; simp at hi⟩
+    | cons e es ih =>
+      intro c h
+      obtain ⟨h1, h2⟩ := keyCache_step_inv c e h
+      obtain ⟨i1, i2⟩ := ih (c.step e).1 h1
+      refine ⟨by simpa [KeyCache.run] using i1, ?_⟩
+      intro i a hi
+      cases i with
+      | zero =>
+        simp at hi
+        simp [KeyCache.replies]
+        exact h2 a hi
+      | succ j =>
+        simp at hi
+        simpa [KeyCache.replies] using i2 j a hi
+  obtain ⟨h1, h2⟩ := inv evs { e0 := none, e1 := none } (by simp)
+  refine ⟨?_, h2⟩
+  generalize KeyCache.run { e0 := none, e1 := none } evs = c at h1
+  rcases c with ⟨e0, e1⟩
+  cases e0 <;> cases e1 <;> simp_all [KeyCache.fetch, privateLookup]
+
+-- non-vacuity: the padded set does sit in the checking-disabled partition, and is served there
+example : (KeyCache.run { e0 := none, e1 := none } [.ask true false, .ask false false]).fetch true = some .padded := by decide
+example : (KeyCache.run { e0 := none, e1 := none } [.ask true false, .ask false false]).fetch false = some .failed := by decide
+example : (KeyCache.run { e0 := none, e1 := none } [.ask true false, .ask false true]).fetch false = some .genuine := by decide
+example : (KeyCache.run { e0 := none, e1 := none } [.ask true false]).fetch false = none := by decide
+
+/-- **a reply synthesised from a cached NXDOMAIN cut obeys the AD rule on every route.** AD only toward
+CD=0 clients that set DO or AD; a CD=1 client is never answered from the cut at all; DNSSEC records only
+toward DO. -/
+theorem cut_reply_ad_only_when_asked (r : ReqFlags) :
+    ((cutServe r).ad = true → r.cd = false ∧ (r.doBit = true ∨ r.ad = true)) ∧
+    (r.cd = true → (cutServe r).hit = false) ∧
+    ((cutServe r).dnssec = true → r.doBit = true) := by
+  rcases r with ⟨cd, dob, ad, opt⟩
+  cases cd <;> cases dob <;> cases ad <;> simp [cutServe, ednsWriteAD, ednsNoAD]
+
+-- non-vacuity: a DO client is told AD with the proof, an AD-only client AD without, a plain client neither
+example : cutServe { cd := false, doBit := true, ad := false } = { hit := true, ad := true, dnssec := true } := by decide
+example : cutServe { cd := false, doBit := false, ad := true } = { hit := true, ad := true, dnssec := false } := by decide
+example : cutServe { cd := false, doBit := false, ad := false } = { hit := true, ad := false, dnssec := false } := by decide
+
+/-- **a cached alias whose target fails is a failure of the whole question.** SERVFAIL, no records, no
+AD, and an Extended DNS Error exactly when the client sent an OPT — the hop's own code when it has one. -/
+theorem alias_hit_failure_is_servfail_with_ede (hopEDE : Option Nat) (hasOPT : Bool) :
+    (hitChaseFailReply hopEDE hasOPT).rcode = SdnsVerif.Gen.C01.rcode_servfail ∧
+    (hitChaseFailReply hopEDE hasOPT).ad = false ∧ (hitChaseFailReply hopEDE hasOPT).answers = 0 ∧
+    ((hitChaseFailReply hopEDE hasOPT).ede.isSome = hasOPT) ∧
+    (∀ c, hopEDE = some c → hasOPT = true → (hitChaseFailReply hopEDE hasOPT).ede = some c) := by
+  refine ⟨rfl, rfl, rfl, ?_, ?_⟩
+  · cases hasOPT <;> simp [hitChaseFailReply]
+  · intro c hc ho
+    simp [hitChaseFailReply, hc, ho]
+
+example : (hitChaseFailReply (some 6) true).ede = some 6 ∧ (hitChaseFailReply none true).ede = some 0 ∧
+    (hitChaseFailReply (some 6) false).ede = none := by decide
+
 /-! ## regenerated tables -/
 
 /-- the algorithm and digest tables of the tree are the model's: nothing the model treats as
